@@ -229,6 +229,21 @@ def analyse(steps, trailing_notes=()):
                 pending_since_emit[ep] = True
                 if bits > 7265 or ch >= 32767:
                     V.append(Violation("C14", "accepted-invalid", "over-size / out-of-range send accepted (ret %d)" % r, st))
+        if op == "sendfill":
+            ep = int(a[0])
+            ch, flags, name, slack, pseed = (int(x) for x in a[1:6])
+            stats["sends"] += 1
+            rr = ret.split() if ret else []
+            if len(rr) == 2 and re.match(r"^-?\d+$", rr[0]):
+                r, bits = int(rr[0]), int(rr[1])
+                if r >= 0:
+                    fl = flags & 9
+                    rec = dict(ch=ch, flags=fl, reason=0, name=name if fl & 9 else 0, bits=bits, hash=payload_hash(pseed, bits), pid=r, step=st)
+                    sent.setdefault((ep, ch, bool(fl & 8)), []).append(rec)
+                    sent_all.setdefault(ep, []).append(rec)
+                    pending_since_emit[ep] = True
+                else:
+                    stats["sends_rejected"] += 1
         if op == "lsend":
             stats["large"] += 1
             ep = int(a[0])
@@ -352,8 +367,51 @@ def analyse(steps, trailing_notes=()):
         # would-block observation: the sender consulted the window
         if op == "wb" and ret == "1":
             pass
-        if op in ("raw", "mut", "lraw", "lmut"):
+        if op in ("raw", "mut", "lraw", "lmut", "craft", "lcraft"):
             stats["hostile"] += 1
+        if op == "codec":
+            stats["unit"] = stats.get("unit", 0) + 1
+            ch, flags, reason, name, chseq, bits, pseed, off = (int(x) for x in a[:8])
+            res = [e for e in st.events if e.startswith("codec")]
+            want_fail = bool(flags & 2) and (reason & 15) == 15
+            if not res:
+                V.append(Violation("C11", "codec", "no result", st))
+            elif want_fail:
+                if res[0] != "codec encfail":
+                    V.append(Violation("C11", "codec", "unrepresentable close reason was serialised: %s" % res[0], st))
+            elif not res[0].startswith("codec ok"):
+                V.append(Violation("C11", "codec", "in-range bunch does not round-trip at bit offset %d: %s" % (off % 64, res[0]), st))
+        if op in ("bbint", "bbwrapped", "bbpacked"):
+            stats["unit"] = stats.get("unit", 0) + 1
+            res = [e for e in st.events if e.startswith("bb")]
+            v = int(a[0]) % (1 << 32)
+            mx = int(a[1]) % (1 << 32) if op != "bbpacked" else 0
+            if not res:
+                V.append(Violation("C12", "bb", "no result", st))
+            elif op == "bbint" and v >= mx:
+                if res[0] != "bb fail":
+                    V.append(Violation("C12", "bb", "out-of-range value accepted: %s" % res[0], st))
+            else:
+                t = res[0].split()
+                if t[1] != "ok":
+                    V.append(Violation("C12", "bb", "write/read failed: %s" % res[0], st))
+                else:
+                    used, got, consumed = int(t[2]), int(t[3]), int(t[4])
+                    if op == "bbint":
+                        want, maxbits = v, max(1, (mx - 1).bit_length())
+                        if got != want or consumed != used or used > maxbits:
+                            V.append(Violation("C12", "bb", "bounded int %d/%d: used %d bits (limit %d), read %d consuming %d" % (v, mx, used, maxbits, got, consumed), st))
+                    elif op == "bbwrapped":
+                        k = (mx).bit_length() - 1 if mx & (mx - 1) == 0 else None
+                        if consumed != used or (k is not None and (used != k or got != v % mx)):
+                            V.append(Violation("C12", "bb", "wrapped int %d/%d: used %d, read %d consuming %d" % (v, mx, used, got, consumed), st))
+                    else:
+                        nbytes = max(1, (v.bit_length() + 6) // 7)
+                        if got != v or consumed != used or used != 8 * nbytes:
+                            V.append(Violation("C12", "bb", "packed int %d: used %d bits (expected %d), read %d consuming %d" % (v, used, 8 * nbytes, got, consumed), st))
+        for ev in st.events:
+            if ev.startswith("live ") and ev != "live 0":
+                V.append(Violation("C16", "leak", "%s block(s) still allocated after every object was destroyed" % ev.split()[1], st))
         if op == "drop":
             stats["drops"] += 1
         if op == "uninit":
@@ -381,6 +439,10 @@ def analyse(steps, trailing_notes=()):
     # ---------------- expectations tagged by construction (C06 / C07)
     for st, exp in expectations:
         acc = [e for e in st.events if e.startswith("accept ")]
+        if exp[0] == "restart-accept":
+            if not acc or acc[0].split()[2] != "1":
+                V.append(Violation("C07", "rejected-valid", "restart response echoing a fresh cookie was not reported as a re-connect (%s)" % (acc or [e for e in st.events if e.startswith("ret")]), st))
+            continue
         if exp[0] == "accept" and not acc:
             V.append(Violation("C07", "rejected-valid", "fresh response within one rotation was refused (%s)" % [e for e in st.events if e.startswith("ret")], st))
         if exp[0] == "noaccept" and acc:
@@ -486,10 +548,27 @@ def analyse(steps, trailing_notes=()):
         le = {}
         for st in steps:
             pass
+    # ---------------- C05: the handshake completed exactly once on each side, and data flows afterwards
+    if handshake_addr is not None and drained and not hostile:
+        client = 1
+        if connects.get(client, 0) == 0:
+            V.append(Violation("C05", "never", "client never reported connected although the network became fault-free"))
+        elif connects.get(client, 0) > 1:
+            V.append(Violation("C05", "twice", "client reported connected %d times" % connects[client]))
+        if accepts.get(handshake_addr, 0) == 0:
+            V.append(Violation("C05", "never", "listener never reported an acceptance"))
+        elif accepts.get(handshake_addr, 0) > 1:
+            V.append(Violation("C05", "twice", "listener reported %d acceptances for one client address" % accepts[handshake_addr]))
+        if connects.get(client, 0) == 1 and accepts.get(handshake_addr, 0) == 1:
+            for (src, ch, rel), want in sent.items():
+                dst = peers.get(src)
+                if rel and dst is not None and len(recvd.get((dst, ch, True), [])) < len(want):
+                    V.append(Violation("C05", "disagree", "after the handshake reliable data from endpoint %d is not delivered: the ends disagree on the initial sequence numbers" % src, want[0]["step"]))
+                    break
     # forged / reflected datagrams are outside the fault model of C01-C04 (the protocol is not authenticated): in
     # sessions that inject them only the robustness monitors apply
     if hostile:
-        V = [v for v in V if v.prop in ("C09", "C14", "C18", "C08", "C03") and v.rule not in ("lost", "mixed")]
+        V = [v for v in V if v.prop in ("C09", "C14", "C18", "C08", "C03", "C16", "C11", "C12", "C06", "C07") and v.rule not in ("lost", "mixed", "retained")]
     if window_exceeded_flag:
         V = [v for v in V if not (v.prop == "C02" and v.rule == "false-nak") and v.rule != "lost"]
     return V, stats, dict(sent=sent, recvd=recvd, status=status, accepted=accepted, joined=joined, peers=peers, connects=connects, accepts=accepts,
